@@ -22,6 +22,7 @@ import (
 // QCfg is the drawn configuration of one queue-world run.
 type QCfg struct {
 	ClockSteps      bool     `json:"clock_steps,omitempty"`
+	IDClockDrift    int      `json:"id_clock_drift,omitempty"` // one reading in N moves the id generator's clock one tick ahead (0 = never)
 	Profile         string   `json:"profile"`
 	MemQueueSize    int64    `json:"mem_queue_size"`
 	MaxBytesPerFile int64    `json:"max_bytes_per_file"`
